@@ -186,6 +186,16 @@ func TestVerifC06(t *testing.T) {
 					}
 				}
 			}
+			// an attempt is also one that was started (StartSwitchover rewrote the request) and gave up
+			// before its first statement, e.g. because the old master of a planned switchover does
+			// not answer: the procedure itself rejects then, which is not a re-judgement
+			for _, m := range s.zk.MutSnapshot()[r.mut0:r.mut1] {
+				var cur Switchover
+				if m.Client == r.p.id && m.Path == simNS+"/"+pathCurrentSwitch && m.Op == vs.OpSetData && json.Unmarshal(m.Data, &cur) == nil && swID(&cur) == id &&
+					!cur.StartedAt.IsZero() && !cur.StartedAt.Before(r.t0) {
+					froze = true
+				}
+			}
 			for _, m := range s.zk.MutSnapshot()[r.mut0:r.mut1] {
 				key := strings.TrimPrefix(m.Path, simNS+"/")
 				if m.Client != r.p.id || (m.Op != vs.OpCreate && m.Op != vs.OpSetData) {
